@@ -159,7 +159,11 @@ class CommunityGameState(PokerGameState):
 
         :return: (bool)
         """
-        return self.street == 0 and self.action == self.big_blind_player
+        return (
+            self.street == 0
+            and self.action == self.big_blind_player
+            and any(self.blinds)
+        )
 
     def order_hands(self, players):
         """given a list of players who've seen the hand to showdown,
